@@ -16,7 +16,7 @@ LEVEL_TEXT = (
     "cross-validated against closed forms), tolerances 1e-9..1e-2, initial steps 1e-4..3, 3 factorisations x 3 calibration modes x "
     "filter/fixed-point/fixed-interval x TS0/TS1 x 2..7 Taylor coefficients. Adaptive: a probe run records the natural step ends, then the "
     "final time is placed at a step end +- {1e-15..1e-6, 0.9 eps, 1.5 eps} (the clipping / 'at t1' / interpolation branches), with the "
-    "terminal-value routine (clip on) and the checkpointed routine (clip off/on); the error at every requested time must be <= K x (atol + "
+    "terminal-value routine (clip on) and the checkpointed routine (clip off/on; two drawn interior checkpoints or 12 equispaced ones, so that several checkpoints fall into one accepted step); the error at every requested time must be <= K x (atol + "
     "rtol |u|), K = 5000 (measured over ~6000 runs on the unchanged tree: 99% below 30, maximum 875), i.e. only gross violations of tolerance proportionality are reported; finer defects of the estimate are C07's job. Fixed grids: uniform grids with N, 2N, 4N, 8N steps; the least-squares order over the asymptotic levels must reach "
     "min(number of coefficients - 2, 3) (first-order ODEs; min(n - 3, 2.5) for second-order ODEs: high orders hit the rounding floor within two refinements and the reduced models lose order on coupled systems) for filter and fixed-interval smoother - an order collapse shows in every pair of levels."
 )
@@ -30,7 +30,7 @@ RULE = (
     "non-trivial = (adaptive) >= 1 rejected attempt or a clipped/overstepped final step, (convergence) >= 3 usable refinement levels"
 )
 ASSUMPTIONS = ["jacobian_materialize(); IWP priors with Taylor-coefficient initialisation; integral controller; residual error estimate; x64"]
-REQUIRED_LABELS = ["mode:adaptive", "mode:convergence", "fact:dense", "fact:isotropic", "fact:blockdiag", "clip_branch", "terminal_values", "smoother", "n>=5"]
+REQUIRED_LABELS = ["mode:adaptive", "mode:convergence", "fact:dense", "fact:isotropic", "fact:blockdiag", "clip_branch", "terminal_values", "smoother", "n>=5", "several_checkpoints_in_one_step"]
 MAX_INCONCLUSIVE = 0.5
 K_BOUND = 5000.0
 
@@ -59,7 +59,10 @@ def strategy(ctx):
             cfg["strategy"] = draw(st.sampled_from(["filter", "fixedpoint"]))
             cfg["clip"] = draw(st.booleans())
             cfg["terminal"] = draw(st.booleans())
-            cfg["num_ckpt"] = 2 if cfg["terminal"] else 4
+            # checkpoint layout: two interior checkpoints at drawn positions, or a dense equispaced layout (several
+            # checkpoints inside one accepted step whenever the solver takes long steps)
+            cfg["dense_ckpt"] = bool(not cfg["terminal"] and draw(st.booleans()))
+            cfg["num_ckpt"] = 2 if cfg["terminal"] else (14 if cfg["dense_ckpt"] else 4)
         else:
             cfg["strategy"] = draw(st.sampled_from(["filter", "fixedinterval"]))
         case = dict(cfg=cfg, mode=mode, p=draw(gen.vec(8, st.floats(0.0, 1.0))), t0=draw(gen.quarter(-4, 4)),
@@ -239,12 +242,17 @@ def _adaptive(res, case, field, C, inits, t0, T):
         if f2 - f1 < 0.05:  # nearly coinciding checkpoints are C05's subject (and finding F15), not C01's
             f2 = min(0.95, f1 + 0.05)
         save_at = np.asarray([t0, t0 + f1 * (T2 - t0), t0 + f2 * (T2 - t0), T2])
+        if cfg.get("dense_ckpt"):
+            res.label("dense_checkpoints")
+            save_at = np.linspace(t0, T2, 14)
     out, ev = ssmcase.run_save_at(sc, save_at)
     steps, errs = sk.accepted_steps(ev)
     n_rej = sum(1 for e in errs if e[3] < 1.0)
     last_end = steps[-1][0] + steps[-1][1] if steps else t0
     clipped = bool(cfg.get("clip", cfg["terminal"])) and abs(last_end - T2) <= eps
     overstepped = last_end > T2 + eps
+    if cfg.get("dense_ckpt") and len(steps) < len(save_at) - 2:
+        res.label("several_checkpoints_in_one_step")
     if clipped or overstepped or any(e[0] == "interp_at" for e in ev):
         res.label("clip_branch")
     res.nontrivial = n_rej >= 1 or clipped or overstepped
